@@ -1065,6 +1065,29 @@ def signature(spec, tag):
     return f"{f}|{setup_name(spec)}|{tag}" + input_class(spec)
 
 
+PYTEST_TSP = '''
+def test_c12_replay():
+    # the run must return, use at most {budget} FEs and report the true
+    # length of its best tour (on the unrepaired tree it may never return)
+    import numpy as np
+    from moptipy.api.execution import Execution
+    from moptipy.spaces.permutations import Permutations
+    from moptipyapps.tsp.instance import Instance
+    from moptipyapps.tsp.{mod} import {cls}
+    from moptipyapps.tsp.tour_length import TourLength
+    m = {m}
+    inst = Instance("c12", 0, np.array(m))
+    with Execution().set_solution_space(Permutations.standard(len(m))) \\
+            .set_algorithm({cls}(inst)).set_objective(TourLength(inst)) \\
+            .set_max_fes({budget}).set_rand_seed({seed}).execute() as p:
+        y = p.create()
+        p.get_copy_of_best_y(y)
+        assert p.get_consumed_fes() <= {budget}
+        assert p.get_best_f() == sum(
+            m[y[i]][y[(i + 1) % len(m)]] for i in range(len(m)))
+'''
+
+
 def check_member(spec, root):
     """Check one member; a failing member is re-executed before reporting."""
     fn = CHECKS[spec["family"]]
@@ -1085,9 +1108,17 @@ def check_member(spec, root):
                             f"{t2}")
         for tag, text in probs:
             if tag in t2:
+                rep = spec_key(spec)
+                if spec["family"] == "tsp":
+                    rep["pytest"] = PYTEST_TSP.format(
+                        m=np.asarray(tsp_instance(spec["inst"])).tolist(),
+                        cls="TSPEA1p1revn" if spec["alg"] == "ea"
+                        else "TSPFEA1p1revn",
+                        mod="ea1p1_revn" if spec["alg"] == "ea"
+                        else "fea1p1_revn", seed=spec["seed"],
+                        budget=spec["budget"])
                 res["viol"].append((signature(spec, tag),
-                                    f"{spec_key(spec)}: {text}",
-                                    spec_key(spec)))
+                                    f"{spec_key(spec)}: {text}", rep))
     res["_info"] = info
     return res
 
@@ -1406,6 +1437,7 @@ def replay(ctx: Ctx, rep: dict) -> bool:
             for v in o["viol"]:
                 print(v[0], v[1])
             return not o["viol"]
+        rep = {k: v for k, v in rep.items() if k != "pytest"}
         probs, info = CHECKS[rep["family"]](rep, root)
         o = info["o"]
         print(f"{rep}: status={o['status']} best_f={o['f']} fes={o['fes']} "
